@@ -56,6 +56,20 @@ type Session struct {
 	*Server
 	Statements StatementCache
 	Portals    PortalCache
+
+	// discarding is set once an error has been reported for an extended query
+	// message. All messages are discarded until the client sends a Sync.
+	discarding bool
+}
+
+// extendedError reports an error raised while processing an extended query
+// message. A single ErrorResponse is written and all following messages are
+// discarded until a Sync message is received, which is answered with the one
+// and only ReadyForQuery of the cycle.
+// https://www.postgresql.org/docs/current/protocol-flow.html#PROTOCOL-FLOW-EXT-QUERY
+func (srv *Session) extendedError(writer *buffer.Writer, err error) error {
+	srv.discarding = true
+	return errorResponse(writer, err)
 }
 
 // consumeCommands consumes incoming commands sent over the Postgres wire connection.
@@ -99,6 +113,12 @@ func (srv *Session) consumeSingleCommand(ctx context.Context, reader *buffer.Rea
 	}
 
 	if srv.closing.Load() {
+		return nil
+	}
+
+	// NOTE: an error has been reported for an extended query message, all
+	// messages until the next Sync are read and discarded.
+	if srv.discarding && t != types.ClientSync && t != types.ClientTerminate {
 		return nil
 	}
 
@@ -192,6 +212,7 @@ func (srv *Session) handleCommand(ctx context.Context, conn net.Conn, t types.Cl
 		// — this ensures that there is one and only one ReadyForQuery sent for
 		// each Sync.)
 		// https://www.postgresql.org/docs/current/protocol-flow.html#PROTOCOL-FLOW-EXT-QUERY
+		srv.discarding = false
 		return readyForQuery(writer, types.ServerIdle)
 	case types.ClientBind:
 		return srv.handleBind(ctx, reader, writer)
@@ -290,7 +311,7 @@ func (srv *Session) handleSimpleQuery(ctx context.Context, reader *buffer.Reader
 
 func (srv *Session) handleParse(ctx context.Context, reader *buffer.Reader, writer *buffer.Writer) error {
 	if srv.parse == nil || srv.Statements == nil {
-		return ErrorCode(writer, NewErrUnimplementedMessageType(types.ClientParse))
+		return srv.extendedError(writer, NewErrUnimplementedMessageType(types.ClientParse))
 	}
 
 	name, err := reader.GetString()
@@ -324,14 +345,14 @@ func (srv *Session) handleParse(ctx context.Context, reader *buffer.Reader, writ
 
 	statement, err := singleStatement(srv.parse(ctx, query))
 	if err != nil {
-		return ErrorCode(writer, err)
+		return srv.extendedError(writer, err)
 	}
 
 	srv.logger.Debug("incoming extended query", slog.String("query", query), slog.String("name", name), slog.Int("parameters", len(statement.parameters)))
 
 	err = srv.Statements.Set(ctx, name, statement)
 	if err != nil {
-		return ErrorCode(writer, err)
+		return srv.extendedError(writer, err)
 	}
 
 	writer.Start(types.ServerParseComplete)
@@ -359,7 +380,7 @@ func (srv *Session) handleDescribe(ctx context.Context, reader *buffer.Reader, w
 		}
 
 		if statement == nil {
-			return ErrorCode(writer, errors.New("unknown statement"))
+			return srv.extendedError(writer, errors.New("unknown statement"))
 		}
 
 		err = srv.writeParameterDescription(writer, statement.parameters)
@@ -376,13 +397,13 @@ func (srv *Session) handleDescribe(ctx context.Context, reader *buffer.Reader, w
 		}
 
 		if portal == nil {
-			return ErrorCode(writer, errors.New("unknown portal"))
+			return srv.extendedError(writer, errors.New("unknown portal"))
 		}
 
 		return srv.writeColumnDescription(ctx, writer, portal.formats, portal.statement.columns)
 	}
 
-	return ErrorCode(writer, fmt.Errorf("unknown describe command: %s", string(d[0])))
+	return srv.extendedError(writer, fmt.Errorf("unknown describe command: %s", string(d[0])))
 }
 
 // https://www.postgresql.org/docs/15/protocol-message-formats.html
@@ -540,7 +561,7 @@ func (srv *Session) readColumnTypes(reader *buffer.Reader) ([]FormatCode, error)
 
 func (srv *Session) handleExecute(ctx context.Context, reader *buffer.Reader, writer *buffer.Writer) error {
 	if srv.Statements == nil {
-		return ErrorCode(writer, NewErrUnimplementedMessageType(types.ClientExecute))
+		return srv.extendedError(writer, NewErrUnimplementedMessageType(types.ClientExecute))
 	}
 
 	name, err := reader.GetString()
@@ -560,7 +581,7 @@ func (srv *Session) handleExecute(ctx context.Context, reader *buffer.Reader, wr
 	srv.logger.Debug("executing", slog.String("name", name), slog.Uint64("limit", uint64(limit)))
 	err = srv.Portals.Execute(ctx, name, reader, writer)
 	if err != nil {
-		return ErrorCode(writer, err)
+		return srv.extendedError(writer, err)
 	}
 
 	return nil
